@@ -83,3 +83,7 @@ TEXT.update({
             "level": "Generated sequences of construction, configuration, evaluation, copy-construction (lvalue/rvalue), assignment (plain, temporary, chained, self, over an optimizer owning a workspace), source mutation and destruction over heap-allocated optimizers; after every step every optimizer must evaluate bitwise like a freshly configured equivalent, call only its own default maps or the user's maps, and expose its own spline object.",
             "note": _BASE_NOTE + " Default maps are instantiated as stateful types, because a stateless map (the bundled ones) would hide sharing."},
 })
+TEXT["C19"] = {"technique": "property-based testing (rapidcheck): model of the documented procedure re-enacted through public evaluate calls; verdict judged with tolerances generated relative to the measured finite-difference resolution; planted single-component gradient errors",
+               "level": "For generated problems, flags, cost programs, step sizes, both overloads and both workspace modes the result fields are compared with a re-enactment of the procedure (analytic gradient bitwise, numerical gradient, norms), the workspace state after the call is compared bitwise with a plain evaluation, "
+                        "correct functors must be accepted and functors with a single wrong gradient component (effect 30x / 1000x the tolerance) must be rejected.",
+               "note": _BASE_NOTE + " Tolerances are generated relative to what the helper's own central differences can resolve at that point (a finite-difference self-check cannot certify more); the default 1e-4 is used wherever it is resolvable."}
